@@ -1,6 +1,6 @@
 (* Extract_clen.v — extraction of the Content-Length models (C26) to OCaml; ExtrOcamlBasic only. *)
 Require Import ExtrOcamlBasic.
-Require Import SquidV.Bytes SquidV.TokModel SquidV.ClenModel.
+Require Import SquidV.Bytes SquidV.ClenModel.
 Extraction "m_clen.ml"
   parse_offset relaxed_of cl_init check_fields hdr_parse content_length first_cl has_id
   cl_value cl_problem cl_sawBad cl_needsSan cl_sawGood
